@@ -552,3 +552,19 @@ pub fn rand_ws(rng: &mut ChaCha8Rng) -> String {
     let n = rng.gen_range(1..=3);
     (0..n).map(|_| WS_CHARS[rng.gen_range(0..WS_CHARS.len())]).collect()
 }
+
+/// Panics of the code under test are data (silent); a panic of the harness itself is printed.
+pub fn harness_hook() {
+    std::panic::set_hook(Box::new(|info| {
+        let msg = if let Some(s) = info.payload().downcast_ref::<&str>() {
+            (*s).to_string()
+        } else if let Some(s) = info.payload().downcast_ref::<String>() {
+            s.clone()
+        } else {
+            String::new()
+        };
+        if msg.contains("harness:") {
+            eprintln!("{info}");
+        }
+    }));
+}
